@@ -192,7 +192,13 @@ class SlotResolver:
                 for e in elems:
                     if e.get("kind") == "acc" and isconst:
                         e["const"] = True
-                return {"kind": "vec", "var": did, "name": d["name"], "elems": elems, "const": isconst, "node": n, "decl": d}
+                escaped = None
+                if not elems:
+                    for x in walk(self.fm.body):
+                        if x.get("k") in ("CallExpr", "CXXMemberCallExpr") and tbf.callee_name(x) not in ("emplace_back", "push_back", "make_const", "size", "clear", "reserve") \
+                                and any(strip(a_).get("did") == did for a_ in tbf.call_args(x)):
+                            escaped = x
+                return {"kind": "vec", "var": did, "name": d["name"], "elems": elems, "const": isconst, "node": n, "decl": d, "escaped": escaped}
             if t.endswith("]") or "std::array<" in t.replace(" ", ""):
                 fills = []
                 for x in walk(self.fm.body):
@@ -205,6 +211,24 @@ class SlotResolver:
                             fills.append({"index": kids(lhs)[2], "value": rhs, "node": x})
                         elif lhs.get("k") == "ArraySubscriptExpr" and strip(kids(lhs)[0]).get("k") == "DeclRefExpr" and False:
                             pass
+                if not fills:
+                    cls = self.fn.get("cls")
+                    for x in walk(self.fm.body):
+                        if x.get("k") in ("CallExpr", "CXXMemberCallExpr") and cls:
+                            ai = [i_ for i_, a_ in enumerate(tbf.call_args(x)) if strip(a_).get("did") == did]
+                            cands = [g for g in self.facts.methods_of(cls) if g["name"] == tbf.callee_name(x) and tbf.body(g) is not None and not g.get("inst") and len(g["params"]) == len(tbf.call_args(x))]
+                            if ai and len(cands) == 1:
+                                g = cands[0]
+                                pd = g["params"][ai[0]]["did"]
+                                fl = []
+                                for y in walk(tbf.body(g)):
+                                    if y.get("k") in ("BinaryOperator",) and y.get("op") == "=":
+                                        l_ = strip(kids(y)[0])
+                                        if l_.get("k") == "ArraySubscriptExpr" and strip(kids(l_)[0]).get("did") == pd:
+                                            fl.append({"index": kids(l_)[1], "value": kids(y)[1], "node": y})
+                                if fl:
+                                    import stages as _st
+                                    return {"kind": "arr", "var": did, "name": d["name"], "fills": fl, "node": n, "decl": d, "foreign": g, "filler_fm": _st.FnModel(self.facts, g), "via_call": x}
                 return {"kind": "arr", "var": did, "name": d["name"], "fills": fills, "node": n, "decl": d}
             init = kids(d)
             if self.fm.assigned.get(did) or not init or t.replace("const ", "") in ("long", "int", "unsigned long", "size_t"):
